@@ -71,7 +71,7 @@ def ekey(e):
     return (t, e['path'], e['size'], tuple(sorted(e['sums'].items())))
 
 
-def do_update(w, seam, u, op_index, top='Manifest'):
+def do_update(w, seam, u, op_index, top='Manifest', session=None):
     """Run one update under the seam.  Returns (result, info)."""
     root = w.root
     api = u.get('api', 'lib')
@@ -96,7 +96,13 @@ def do_update(w, seam, u, op_index, top='Manifest'):
                     k['profile'] = get_profile_by_name(prof)
                 if u.get('create'):
                     k['allow_create'] = True
-                m = ManifestRecursiveLoader(os.path.join(root, top), **k)
+                if u.get('reuse') and session is not None and session.get('m') is not None:
+                    m = session['m']
+                    info['reused_loader'] = True
+                else:
+                    m = ManifestRecursiveLoader(os.path.join(root, top), **k)
+                if session is not None:
+                    session['m'] = None
                 lm = u.get('last_mtime')
                 ukw = {}
                 if lm is not None:
@@ -108,6 +114,8 @@ def do_update(w, seam, u, op_index, top='Manifest'):
                 if u.get('force'):
                     skw['force'] = True
                 m.save_manifests(**skw)
+                if session is not None:
+                    session['m'] = m
                 return True
             r = call(run)
         else:
@@ -194,7 +202,11 @@ def run_history(sc, want_idempotence=True, faults=None, audits=True):
                       key=sc['order_key'], mode='micro')
         seam = Seam(w.root, order_key=sc['order_key'], virtual_root=True, clock=clock, faults=faults, patch_time=True)
         opi = 0
+        session = {}
         for ri, rnd in enumerate(sc.get('rounds', [])):
+            mf_before_edits = None
+            if rnd.get('update', {}).get('reuse') and session.get('m') is not None:
+                mf_before_edits = dict((k_, v_) for k_, v_ in w.snapshot(with_mtime=False).items() if is_manifest_path(k_))
             for m in rnd.get('edits', []):
                 if 'mt' not in m and not m.get('keep_mtime'):
                     m = dict(m, now_ns=clock.now_ns)
@@ -257,7 +269,15 @@ def run_history(sc, want_idempotence=True, faults=None, audits=True):
                             valid_before_ents[k0] = ents0
                     except Exception:
                         pass
-            r, info = do_update(w, seam, u, opi, top)
+            if u.get('reuse') and mf_before_edits is not None and \
+                    mf_before_edits != dict((k_, v_) for k_, v_ in w.snapshot(with_mtime=False).items() if is_manifest_path(k_)):
+                u = dict(u, reuse=False)      # somebody else rewrote or removed a Manifest: a cached loader is legitimately stale
+                counters['reuse_cancelled_manifest_changed_by_edit'] = counters.get('reuse_cancelled_manifest_changed_by_edit', 0) + 1
+            r, info = do_update(w, seam, u, opi, top, session)
+            if u.get('api', 'lib') != 'lib':
+                session['m'] = None
+            if info.get('reused_loader'):
+                counters['rounds_on_a_reused_loader'] = counters.get('rounds_on_a_reused_loader', 0) + 1
             if r[0] == 'OS':
                 from .common import genuine_oserror
                 os_genuine.append((r[1], getattr(r[2], 'filename', None), genuine_oserror(r[2])))
